@@ -38,6 +38,9 @@ def cat(ls):
 
 
 def _copy_value(v):
+    if isinstance(v, dict) and ("_it" in v or "_chunks" in v):
+        # iterator state is a value, but the container it walks is borrowed, not owned
+        return {k: (x if k == "cont" else (list(x) if k == "_chunks" else _copy_value(x))) for k, x in v.items()}
     if isinstance(v, dict):
         return {k: _copy_value(x) for k, x in v.items()}
     if isinstance(v, list):
@@ -383,7 +386,10 @@ class Machine:
             return self.sym_binop(op, wo, a, b)
         if k == "agg":
             ops = [self.operand(fn, env, o) for o in rv[2]]
-            return {i: o for i, o in enumerate(ops)}
+            d_ = {i: o for i, o in enumerate(ops)}
+            if rv[1] and rv[1][0] == "closure":
+                d_["_closure"] = rv[1][1]
+            return d_
         if k == "rep":
             v = self.operand(fn, env, rv[1])
             n = rv[2]
@@ -787,6 +793,66 @@ class Machine:
             if mm.group(3) == "add":
                 return {0: B.add(x, y), 1: B.pred("carry", x, y)}
             return {0: B.sub(x, y), 1: B.pred("borrow", x, y)}
+        if re.search(r"(slice::<impl \[T\]>|array::<impl \[T; N\]>)::iter(_mut)?$", nm):
+            return self.slice_iter(a[0])
+        if nm.endswith("IntoIterator>::into_iter") and not (isinstance(a[0], dict) and ("_it" in a[0] or "_chunks" in a[0] or set(a[0].keys()) == {0, 1})):
+            # `for x in &array` / `for x in slice`
+            try:
+                return self.slice_iter(a[0])
+            except Unsupported:
+                pass
+        m_it = re.match(r"^core::iter::(?:traits::iterator::)?Iterator::(rev|zip|enumerate|step_by|take|skip|copied|cloned|map|for_each|fold|by_ref)$", nm)
+        if m_it:
+            op_ = m_it.group(1)
+            it = self.it_of(a[0])
+            if op_ == "rev":
+                return {"_it": "rev", "a": it}
+            if op_ == "zip":
+                other = a[1]
+                try:
+                    ob = self.it_of(other)
+                except Unsupported:
+                    ob = self.slice_iter(other)
+                return {"_it": "zip", "a": it, "b": ob}
+            if op_ == "enumerate":
+                return {"_it": "enumerate", "a": it, "n": 0}
+            if op_ == "step_by":
+                if not isinstance(a[1], int) or a[1] <= 0:
+                    raise Unsupported("step_by with a symbolic step")
+                return {"_it": "step", "a": it, "n": a[1], "first": True}
+            if op_ in ("take", "skip"):
+                if not isinstance(a[1], int):
+                    raise Unsupported("%s with a symbolic count" % op_)
+                return {"_it": op_, "a": it, "n": a[1]}
+            if op_ in ("copied", "cloned"):
+                return {"_it": "copied", "a": it}
+            if op_ == "map":
+                return {"_it": "map", "a": it, "f": a[1]}
+            if op_ == "by_ref":
+                return a[0]
+            if op_ == "for_each":
+                while True:
+                    o, v = self.it_next(it)
+                    if not o:
+                        return None
+                    self.call_closure(a[1], [v])
+            if op_ == "fold":
+                acc = a[1]
+                while True:
+                    o, v = self.it_next(it)
+                    if not o:
+                        return acc
+                    acc = self.call_closure(a[2], [acc, v])
+        if re.search(r" as core::iter::(?:traits::iterator::)?Iterator>::next$", nm) and isinstance(a[0], tuple) and a[0] and a[0][0] == "lref":
+            st_ = a[0][1][a[0][2]]
+            if isinstance(st_, dict) and ("_it" in st_ or "_chunks" in st_):
+                o, v = self.it_next(st_)
+                return ("opt", 1, {0: v}) if o else ("opt", 0, {})
+        if re.search(r"slice::<impl \[T\]>::split_at(_mut)?$", nm) and isinstance(a[1], int):
+            cont, base, n = self.seq(a[0])
+            if not (0 <= a[1] <= n):
+                raise Unsupported("split_at(%d) outside a slice of %d elements" % (a[1], n))
+            return {0: ("aslice", cont, base, base + a[1]), 1: ("aslice", cont, base + a[1], base + n)}
         if nm.endswith("IntoIterator>::into_iter") or short == "into_iter":
             return a[0]
         if re.search(r"Iterator for core::ops::Range<A>>::next$", nm) and isinstance(a[0], tuple) and a[0][0] == "lref":
@@ -797,6 +863,122 @@ class Machine:
                 return ("opt", 1, {0: v})
             return ("opt", 0, {})
         raise Unsupported("call %s" % nm)
+
+    # ---- iterators (concrete control: every iterator the analysed code builds has a concrete length)
+    def it_of(self, x):
+        """iterator state for a value an iterator adaptor / consumer receives"""
+        if isinstance(x, tuple) and x and x[0] == "lref":
+            x = x[1][x[2]]
+        if isinstance(x, dict) and "_it" in x:
+            return x
+        if isinstance(x, dict) and "_chunks" in x:
+            return x
+        if isinstance(x, dict) and set(x.keys()) == {0, 1} and all(isinstance(v, int) and not isinstance(v, bool) for v in x.values()):
+            return {"_it": "range", "r": x}
+        raise Unsupported("iterator over %r" % (str(x)[:50],))
+
+    def slice_iter(self, x):
+        cont, base, n = self.seq(x)
+        return {"_it": "slice", "cont": cont, "i": base, "hi": base + n}
+
+    def it_next(self, it):
+        """(True, item) or (False, None); slice iterators yield element references"""
+        k = it.get("_it")
+        if "_chunks" in it:
+            st = it["_chunks"]
+            cont, lo, hi, n, exact = st
+            if lo >= hi or (exact and hi - lo < n):
+                return False, None
+            e = min(hi, lo + n)
+            st[1] = e
+            return True, ("aslice", cont, lo, e)
+        if k == "range":
+            r = it["r"]
+            if r[0] < r[1]:
+                v = r[0]
+                r[0] = v + 1
+                return True, v
+            return False, None
+        if k == "slice":
+            if it["i"] < it["hi"]:
+                i = it["i"]
+                it["i"] = i + 1
+                return True, ("lref", it["cont"], i)
+            return False, None
+        if k == "rev":
+            a = it["a"]
+            if a.get("_it") == "range":
+                r = a["r"]
+                if r[0] < r[1]:
+                    r[1] -= 1
+                    return True, r[1]
+                return False, None
+            if a.get("_it") == "slice":
+                if a["i"] < a["hi"]:
+                    a["hi"] -= 1
+                    return True, ("lref", a["cont"], a["hi"])
+                return False, None
+            raise Unsupported("rev of %s" % a.get("_it"))
+        if k == "zip":
+            oa, va = self.it_next(it["a"])
+            if not oa:
+                return False, None
+            ob, vb = self.it_next(it["b"])
+            if not ob:
+                return False, None
+            return True, {0: va, 1: vb}
+        if k == "enumerate":
+            o, v = self.it_next(it["a"])
+            if not o:
+                return False, None
+            n = it["n"]
+            it["n"] = n + 1
+            return True, {0: n, 1: v}
+        if k == "step":
+            if it["first"]:
+                it["first"] = False
+                return self.it_next(it["a"])
+            for _ in range(it["n"] - 1):
+                o, v = self.it_next(it["a"])
+                if not o:
+                    return False, None
+            return self.it_next(it["a"])
+        if k == "take":
+            if it["n"] <= 0:
+                return False, None
+            it["n"] -= 1
+            return self.it_next(it["a"])
+        if k == "skip":
+            while it["n"] > 0:
+                it["n"] -= 1
+                o, v = self.it_next(it["a"])
+                if not o:
+                    return False, None
+            return self.it_next(it["a"])
+        if k == "copied":
+            o, v = self.it_next(it["a"])
+            if not o:
+                return False, None
+            if isinstance(v, tuple) and v and v[0] == "lref":
+                v = v[1][v[2]]
+            return True, v
+        if k == "map":
+            o, v = self.it_next(it["a"])
+            if not o:
+                return False, None
+            return True, self.call_closure(it["f"], [v])
+        raise Unsupported("iterator kind %s" % k)
+
+    def call_closure(self, clo, params):
+        if isinstance(clo, tuple) and clo and clo[0] == "lref":
+            clo = clo[1][clo[2]]
+        if not (isinstance(clo, dict) and "_closure" in clo):
+            raise Unsupported("call of a non-closure function value")
+        cf = self.P.fn_opt(clo["_closure"])
+        if cf is None:
+            raise Unsupported("closure body %s not in the fact base" % clo["_closure"])
+        holder = {"c": clo}
+        return self.call_fn(cf, [("lref", holder, "c")] + list(params))
 
     def seq(self, ref):
         """(container dict, base index, length) of a reference to a local array / sub-slice"""
